@@ -71,7 +71,8 @@ Inner(c) == CASE c = "s12" -> [j |-> "n", c |-> "p12"] [] c = "snull" -> [j |-> 
               [] c = "q1_5" -> [j |-> "n", c |-> "f1_5"] [] c = "q2_63" -> [j |-> "n", c |-> "p2_63"]
               [] OTHER -> [j |-> "none"]
 
-Opts == [num : {"none", "usenumber", "useint64"}, cs : BOOLEAN, duf : BOOLEAN, vs : BOOLEAN]
+\* ue = UseUnicodeErrors: an escape that is not a valid surrogate pair is an error instead of U+FFFD
+Opts == [num : {"none", "usenumber", "useint64"}, cs : BOOLEAN, duf : BOOLEAN, vs : BOOLEAN, ue : BOOLEAN]
 
 \* ---- documents ----
 RECURSIVE HasX(_)
@@ -137,7 +138,7 @@ Pre(T) == CASE T.k = "rec" -> IF T.d = 0 THEN [g |-> "st", f |-> <<[g |-> "n", a
             [] T.k = "st" -> [g |-> "st", f |-> [i \in 1..Len(T.f) |-> Pre(T.f[i].t)]]
 
 \* ---- interface{} destination: the generic value ----
-StrVal(c, o) == IF c = "sctl" THEN Hard ELSE Ok([g |-> "s", c |-> c])
+StrVal(c, o) == IF c = "sctl" \/ (c = "ssur" /\ o.ue) THEN Hard ELSE Ok([g |-> "s", c |-> c])
 
 RECURSIVE Generic(_, _)
 RECURSIVE GenericSeq(_, _, _)
@@ -158,11 +159,13 @@ GenericSeq(e, i, o) ==
   ELSE LET h == Generic(e[i], o)
            r == GenericSeq(e, i + 1, o)
        IN [hard |-> h.hard \/ r.hard, soft |-> h.soft \/ r.soft, v |-> [g |-> "a", e |-> <<h.v>> \o r.v.e]]
+\* the key "~sur" stands for a key spelled with a lone surrogate escape: it denotes "~surfix" (with U+FFFD), or is an error under ue
+KeyOf(k) == IF k = "~sur" THEN "~surfix" ELSE k
 GenericObj(m, i, acc, o) ==
   IF i > Len(m) THEN Ok([g |-> "m", m |-> acc])
   ELSE LET h == Generic(m[i].v, o)
-           r == GenericObj(m, i + 1, {x \in acc : x.k # m[i].k} \cup {[k |-> m[i].k, v |-> h.v]}, o)
-       IN [hard |-> h.hard \/ r.hard, soft |-> h.soft \/ r.soft, v |-> r.v]
+           r == GenericObj(m, i + 1, {x \in acc : x.k # KeyOf(m[i].k)} \cup {[k |-> KeyOf(m[i].k), v |-> h.v]}, o)
+       IN [hard |-> h.hard \/ r.hard \/ (m[i].k = "~sur" /\ o.ue), soft |-> h.soft \/ r.soft, v |-> r.v]
 
 \* ---- struct fields: encoding/json's typeFields (promotion, dominance) for embedding depth <= 1 ----
 EmbStruct(t) == IF t.k = "ptr" THEN t.e ELSE t
@@ -211,7 +214,7 @@ KeyClass(key) == CASE key = "12" -> "p12" [] key = "01" -> "p7" [] key = "9" -> 
 KeySBits(c) == IF c = "n40000" THEN 32 ELSE SBits(c)
 \* canonical key after conversion, or "bad"
 KeyConv(key, kind) ==
-  IF kind \in {"str", "txt"} THEN key
+  IF kind \in {"str", "txt"} THEN KeyOf(key)
   ELSE LET c == KeyClass(key) IN
        IF c = "none" THEN "bad"
        ELSE IF kind \in IntKinds THEN (IF KeySBits(c) <= Bits(kind) THEN (IF key = "01" THEN "1" ELSE key) ELSE "bad")
@@ -252,7 +255,7 @@ Dec(T0, J, old, o) ==
        LET r == Dec(T.e, J, IF old = Nil THEN Zero(T.e) ELSE old.e, o)
        IN [hard |-> r.hard, soft |-> r.soft, v |-> [g |-> "p", e |-> r.v]]
   ELSE IF T.k = "iface" THEN Generic(J, o)
-  ELSE IF T.k = "ut" THEN (IF J.j = "s" THEN (IF J.c = "sctl" THEN Hard ELSE Ok([g |-> "ut", c |-> J.c])) ELSE Mismatch(J))
+  ELSE IF T.k = "ut" THEN (IF J.j = "s" THEN (IF J.c = "sctl" \/ (J.c = "ssur" /\ o.ue) THEN Hard ELSE Ok([g |-> "ut", c |-> J.c])) ELSE Mismatch(J))
   ELSE IF T.k = "bool" THEN (IF J.j \in {"t", "f"} THEN Ok([g |-> "b", b |-> J.j = "t"]) ELSE Mismatch(J))
   ELSE IF T.k = "str" THEN (IF J.j = "s" THEN StrVal(J.c, o) ELSE Mismatch(J))
   ELSE IF T.k = "num" THEN
@@ -297,7 +300,7 @@ DecMap(T, m, i, acc, o) ==
   IF i > Len(m) THEN Ok([g |-> "m", m |-> acc])
   ELSE LET key == KeyConv(m[i].k, T.key)
            h == Dec(T.e, m[i].v, Zero(T.e), o)
-       IN IF key = "bad"
+       IN IF key = "bad" \/ (m[i].k = "~sur" /\ o.ue)
           THEN LET r == DecMap(T, m, i + 1, acc, o) IN [hard |-> TRUE, soft |-> r.soft \/ h.soft, v |-> Nil]
           ELSE LET r == DecMap(T, m, i + 1, {x \in acc : x.k # key} \cup {[k |-> key, v |-> h.v]}, o)
                IN [hard |-> h.hard \/ r.hard, soft |-> h.soft \/ r.soft, v |-> r.v]
@@ -322,7 +325,7 @@ DecStruct(T, fs, m, i, cur, o) ==
   ELSE LET k == Select(fs, m[i].k, o) IN
        IF k = 0 THEN
             LET r == DecStruct(T, fs, m, i + 1, cur, o)
-            IN [hard |-> r.hard \/ o.duf, soft |-> r.soft \/ HasX(m[i].v), v |-> r.v]
+            IN [hard |-> r.hard \/ o.duf \/ (m[i].k = "~sur" /\ o.ue), soft |-> r.soft \/ HasX(m[i].v), v |-> r.v]
        ELSE LET fd == fs[k]
                 ov == FieldGet(T, cur, fd.path)
                 h == IF fd.q /\ QuotableField(fd.t) THEN DecQuoted(fd.t, m[i].v, ov, o) ELSE Dec(fd.t, m[i].v, ov, o)
